@@ -33,6 +33,8 @@ phase.
 Round 7: Packet.__init__ never feeds its keyword dict from another object; a module-level memo table
 whose value is an immutable function of its key is not shared mutable state; compile steps kept in a
 class-level table that only _compile reads are declaration phase.
+Round 8: memoised builders (lru_cache on a function that makes packets); shallow copies of objects
+kept on a shared field; strategies read the field name at call time.
 """
 import ast
 
